@@ -41,6 +41,14 @@ def gen_case(rng, tier, avoid):
                 rc['layout'] = 'view'
             if rng.random() < 0.25:
                 op['kwargs']['cast_dtype'] = gen.cast_literal(rng, gen.pick(rng, SAFE_CASTS[rc['dtype'][1:]]))
+            elif rng.random() < 0.15:
+                # any other cast (values may change or saturate - the caller's buffer still may not)
+                op['kwargs']['cast_dtype'] = gen.cast_literal(rng, gen.pick(rng, ['int8', 'int16', 'int32', 'uint8', 'uint16', 'uint32',
+                                                                                    'float32', 'float64']))
+            if rc['dtype'][1] == 'f' and rng.random() < 0.3:
+                n = rc['shape'][0] * (rc['shape'][1] if len(rc['shape']) > 1 else 1)
+                rc['specials'] = [[rng.randrange(max(n, 1)), rng.choice(['nan', 'nan', 'inf', '-inf', '-0'])]
+                                  for _ in range(rng.choice([1, 2, 4]))]
     kind = gen.pick(rng, ['inline', 'dict', 'dict', 'struct', 'struct', 'h5'])
     ops, data = spec.ops, None
     if kind != 'inline':
